@@ -339,6 +339,12 @@ class Ref(object):
         je = self.potdef(end_pd, Jet.var(ex, 2))
         sy, sd, sdd = js.d(0).v, js.d(1).v, js.d(2).v
         ey, ed, edd = je.d(0).v, je.d(1).v, je.d(2).v
+        # relative rounding scale of the right-hand side (end-potential values/derivatives may themselves be
+        # ill-conditioned, e.g. Tang-Toennies at short range); it is amplified by the solve like any other error
+        relrhs = 1.0
+        for c in list(js.c) + list(je.c):
+            if c.v != 0.0:
+                relrhs = max(relrhs, c.e / abs(c.v))
         if kw["name"] == "exp_spline":
             inter = 0.0
             if sy <= 0.0 or ey <= 0.0:
@@ -357,7 +363,7 @@ class Ref(object):
                           sdd/sy - (sd/sy)**2, edd/ey - (ed/ey)**2])
             co = np.linalg.solve(A, B)
             cond = float(np.linalg.cond(A))
-            parts = ("exp", sx, ex, [float(c) for c in co], inter, cond, start_pd, end_pd)
+            parts = ("exp", sx, ex, [float(c) for c in co], inter, cond * relrhs, start_pd, end_pd)
         else:
             rm = kw["p"][0]
             M = np.zeros((10, 10))
@@ -384,7 +390,7 @@ class Ref(object):
             V = np.array([sy, sd, sdd, 0, 0, 0, 0, ey, ed, edd], dtype=float)
             co = np.linalg.solve(M, V)
             cond = float(np.linalg.cond(M))
-            parts = ("b4", sx, ex, [float(c) for c in co], rm, cond, start_pd, end_pd)
+            parts = ("b4", sx, ex, [float(c) for c in co], rm, cond * relrhs, start_pd, end_pd)
         self._spl[key] = parts
         return parts
 
@@ -401,6 +407,10 @@ class Ref(object):
         if kind == "exp":
             trace.append(("spl", 1))
             p = _poly_en(co, x, amp)
+            if 256.0 * EPS * p.c[0].e > 0.05:
+                # the exponent itself is uncertain by more than a few per cent: first-order error propagation
+                # through exp() is meaningless there - the spline is outside the well-conditioned range
+                raise DomainError("ill-conditioned exponential spline")
             return p.exp() + extra
         rm = extra
         if r < rm:
@@ -515,7 +525,13 @@ def _pymath_call(f, args, trace):
         return a._compose(EN(math.atan(a.v), abs(math.atan(a.v))), 1.0 / (a * a + 1.0))
     if f == "hypot":
         b = args[1]
-        return (a * a + b * b).sqrt()
+        # scaled like math.hypot: squaring 1e-170 would underflow to zero
+        sc = max(abs(a.v), abs(b.v))
+        if sc == 0.0 or not math.isfinite(sc):
+            return (a * a + b * b).sqrt()
+        sc = 2.0 ** math.frexp(sc)[1]
+        x, y = a / sc, b / sc
+        return (x * x + y * y).sqrt() * sc
     if f == "fabs":
         trace.append(("abs", a.v >= 0))
         return a.abs()
